@@ -134,7 +134,10 @@ def run_scenario(sc):
 
     transports = []
     for i, tc in enumerate(sc["transports"]):
-        d = dict(type=tc["kind"], url=("ws://10.0.0.%d:80/ws" % (i + 1)) if tc["kind"] == "websocket" else ("rs://10.0.0.%d:80" % (i + 1)),
+        # (asyncio: some WebSocket transports are wss:// - the TLS layer itself is not there, but a refused attempt then fails
+        # with a TLS error, which is an OSError like any other connection failure)
+        tls = fw.NAME == "aio" and tc["kind"] == "websocket" and (sc.get("seed", 0) + i) % 4 == 1
+        d = dict(type=tc["kind"], url=(("wss://10.0.0.%d:443/ws" if tls else "ws://10.0.0.%d:80/ws") % (i + 1)) if tc["kind"] == "websocket" else ("rs://10.0.0.%d:80" % (i + 1)),
                  max_retries=tc["max_retries"], initial_retry_delay=tc["initial"], retry_delay_growth=tc["growth"],
                  retry_delay_jitter=tc["jitter"], max_retry_delay=tc["maxdelay"])
         if tc["kind"] == "websocket":
@@ -157,7 +160,7 @@ def run_scenario(sc):
                     return defer.succeed(proto)
             d["endpoint"] = EP(i)
         else:
-            d["endpoint"] = dict(type="tcp", host="10.0.0.%d" % (i + 1), port=80)
+            d["endpoint"] = dict(type="tcp", host="10.0.0.%d" % (i + 1), port=(443 if tls else 80), **(dict(tls=True) if tls else {}))
         transports.append(d)
 
     main_calls = []
@@ -247,6 +250,9 @@ def run_scenario(sc):
             idx = int(host.rsplit(".", 1)[1]) - 1
             r = world.on_connect(idx, protocol_factory)
             if r is None:
+                if kw.get("ssl"):
+                    import ssl as _ssl
+                    raise _ssl.SSLCertVerificationError(1, "[SSL: CERTIFICATE_VERIFY_FAILED] certificate verify failed (scripted)")
                 raise ConnectionRefusedError("refused")
             proto, t = r
             proto.connection_made(t)
